@@ -716,14 +716,18 @@ pub fn oracle(ctx: &mut Ctx) {
             case.class = info.class;
             case.input = case.img.encode_png(&mut rng, &case.enc);
         }
-        if prop == "C08" && rng.chance(1, 6) {
-            // the nx+nz corner
+        if prop == "C08" && rng.chance(1, 5) {
+            // the corner where every reduction and recompression is switched off - under every interlace request and, half
+            // of the time, with a forced output: whatever short cut is taken when "there is nothing to do", a requested
+            // interlace mode is still the mode of a forced output (with 'keep' the IDAT stream has to stay as it is)
             case.opts.bit_depth_reduction = false;
             case.opts.color_type_reduction = false;
             case.opts.palette_reduction = false;
             case.opts.grayscale_reduction = false;
-            case.opts.interlace = None;
+            case.opts.interlace = *rng.choose(&[None, None, Some(0), Some(1)]);
+            case.opts.force = rng.bool();
             case.opts.idat_recoding = false;
+            st.count(&format!("all_off_corner_il{}_req{}_force{}", case.img.il as u8, case.opts.interlace.map_or("keep".to_string(), |m| m.to_string()), case.opts.force as u8));
         }
         st.count("cases");
         st.count(&format!("in_ct{}d{}il{}", case.img.ct, case.img.depth, case.img.il as u8));
